@@ -20,10 +20,10 @@ func Create(path string) (*W, error) {
 	return &W{f: f, b: bufio.NewWriterSize(f, 1<<20)}, nil
 }
 
-func (w *W) Case(id string)                    { fmt.Fprintf(w.b, "case %s\n", id) }
-func (w *W) Init(format string, a ...any)      { fmt.Fprintf(w.b, "init "+format+"\n", a...) }
-func (w *W) Op(format string, a ...any)        { fmt.Fprintf(w.b, "op "+format+"\n", a...) }
-func (w *W) Obs(format string, a ...any)       { fmt.Fprintf(w.b, "obs "+format+"\n", a...) }
-func (w *W) Comment(format string, a ...any)   { fmt.Fprintf(w.b, "# "+format+"\n", a...) }
-func (w *W) Close() error                      { w.b.Flush(); return w.f.Close() }
-func (w *W) Flush()                            { w.b.Flush() }
+func (w *W) Case(id string)                  { fmt.Fprintf(w.b, "case %s\n", id) }
+func (w *W) Init(format string, a ...any)    { fmt.Fprintf(w.b, "init "+format+"\n", a...) }
+func (w *W) Op(format string, a ...any)      { fmt.Fprintf(w.b, "op "+format+"\n", a...) }
+func (w *W) Obs(format string, a ...any)     { fmt.Fprintf(w.b, "obs "+format+"\n", a...) }
+func (w *W) Comment(format string, a ...any) { fmt.Fprintf(w.b, "# "+format+"\n", a...) }
+func (w *W) Close() error                    { w.b.Flush(); return w.f.Close() }
+func (w *W) Flush()                          { w.b.Flush() }
